@@ -11,7 +11,7 @@ Trace == ndJsonDeserialize(IOEnv.TRACE_FILE)
 TraceInit == Init /\ l = 1
 
 Reset(r) ==
-  /\ litplus' = r.litplus /\ state' = r.state /\ utf8' = r.utf8
+  /\ litplus' = r.litplus /\ state' = r.state /\ utf8' = r.utf8 /\ sasl' = r.sasl
   /\ closed' = FALSE /\ stuck' = FALSE /\ out' = Obs("OK", 0, "none")
 
 Unit(r) ==
